@@ -63,6 +63,7 @@ type RaceReport struct {
 }
 
 type hbState struct {
+	keep    []unsafe.Pointer // keeps every observed location alive so that addresses are not reused within an execution
 	e       *exec
 	threads []vclock
 	syncs   map[uintptr]vclock
@@ -182,12 +183,14 @@ func (h *hbState) report(a, b access) {
 	h.races[key] = RaceReport{First: name(a), Second: name(b), Key: key}
 }
 
-func (h *hbState) access(obj uintptr, write bool, site string) {
+func (h *hbState) access(p unsafe.Pointer, write bool, site string) {
 	tid, v := h.cur()
+	obj := uintptr(p)
 	l := h.locs[obj]
 	if l == nil {
 		l = &location{}
 		h.locs[obj] = l
+		h.keep = append(h.keep, p)
 	}
 	me := access{tid: tid, clock: v.get(tid), site: site, write: write}
 	if l.hasWrite && l.lastWrite.tid != tid && l.lastWrite.clock > v.get(l.lastWrite.tid) {
@@ -252,26 +255,26 @@ func AcquireChan(obj uintptr) {
 }
 
 // R / W are inserted by the rewriter before reads / writes of struct fields and map objects.
-func R(obj uintptr, site string) {
+func R(obj unsafe.Pointer, site string) {
 	e := ex
 	if e == nil || e.aborting {
 		return
 	}
 	if e.accessPoints && !e.cfg.Coarse {
-		Point(KAccess, obj)
+		Point(KAccess, uintptr(obj))
 	}
 	if hb != nil {
 		hb.access(obj, false, site)
 	}
 }
 
-func W(obj uintptr, site string) {
+func W(obj unsafe.Pointer, site string) {
 	e := ex
 	if e == nil || e.aborting {
 		return
 	}
 	if e.accessPoints && !e.cfg.Coarse {
-		Point(KAccess, obj)
+		Point(KAccess, uintptr(obj))
 	}
 	if hb != nil {
 		hb.access(obj, true, site)
@@ -279,8 +282,8 @@ func W(obj uintptr, site string) {
 }
 
 // Addr / MapAddr compute location identities.
-func Addr[T any](p *T) uintptr { return uintptr(unsafe.Pointer(p)) }
+func Addr[T any](p *T) unsafe.Pointer { return unsafe.Pointer(p) }
 
-func MapAddr[M ~map[K]V, K comparable, V any](m M) uintptr {
-	return uintptr(*(*unsafe.Pointer)(unsafe.Pointer(&m)))
+func MapAddr[M ~map[K]V, K comparable, V any](m M) unsafe.Pointer {
+	return *(*unsafe.Pointer)(unsafe.Pointer(&m))
 }
